@@ -62,6 +62,30 @@ def gen_cases(rng, n):
     return out
 
 
+def wide_code_cases(rng, n):
+    """few elements, MANY requested labels: integer codes far beyond the element count (codes congruent mod 256 / 65536
+    collide in any narrowed representation), unsorted, every engine"""
+    out = []
+    for _ in range(n):
+        func = rng.choice(["sum", "nansum", "max", "nanmin", "count", "mean", "nanfirst", "last", "median", "nanmedian", "prod", "argmax"])
+        eng = rng.choice(ENGINES)
+        ncodes = rng.choice([300, 520, 700])
+        base = rng.randint(0, 40)
+        pool = [base, base + 256, base + 1, base + 257, rng.randrange(ncodes), base + 512 if base + 512 < ncodes else base + 2]
+        pool = [p for p in pool if p < ncodes]
+        m = rng.randint(3, 14)
+        labels = [rng.choice(pool) for _ in range(m)]
+        if func in ("median", "nanmedian"):
+            vals = [rng.choice([-3, -1, 0, 2, 5, 7]) for _ in range(m)]
+        else:
+            vals = G.rand_vals(rng, m, alphabet=[-3, -2, -1, 0, 1, 2, 3, "nan"], p_special=0.1 if func.startswith("nan") or func == "count" else 0.0)
+        if func == "argmax":
+            vals = [v if v != "nan" else 0 for v in vals]
+        out.append({"func": func, "vals": vals, "labels": labels, "engine": eng, "dtype": "float64",
+                    "expected": list(range(ncodes)), "fill_value": -99})
+    return out
+
+
 def kernel_cases(run, rng, n):
     """K2: generic_aggregate (the engine dispatch + wrappers) called directly"""
     import numpy as np
@@ -130,6 +154,8 @@ def run(run: C.Run):
     kernel_cases(run, rng, 8000 if thorough else 1600)
     cases = F.corpus("C01") + gen_cases(rng, 12000 if thorough else 2500)
     R.check_reduce_cases(run, cases, "C01", nontrivial, full=True)
+    # wide label spaces: compared with the NumPy oracle only (400-700 slots per case are not sent to Coq)
+    R.check_reduce_cases(run, wide_code_cases(rng, 1500 if thorough else 300), "C01", nontrivial, full=True, model=False)
     F.probe_kf05(run)
     if any(not o[1] for o in run.obligations) and not run.violations:
         run.violation({"property": "C01", "kind": "proof obligation / correspondence no longer checks",
